@@ -346,8 +346,16 @@ func (c *Channel) proposeNewSession(sid [32]byte, newS *Session) (ret *Session) 
 func (c *Channel) onReadySession(now time.Time) error {
 	se := c.sessions[2]
 	sessRemote := se.Session.RemoteKey()
-	if !c.remoteKey.IsZero() && !x509.EqualPublicKeys(&c.remoteKey, &sessRemote) {
+	if err := c.checkKey(&sessRemote); err != nil {
+		// the key must be the one we already talk to, or else be accepted, also when we were the initiator.
 		c.setNext(sessionEntry{})
+		// wake the callers waiting in getOrInit, so that they start another handshake.
+		select {
+		case <-c.ready:
+		default:
+			close(c.ready)
+		}
+		c.ready = make(chan struct{})
 		return errors.New("session negotiated with wrong peer")
 	}
 	c.remoteKey = se.Session.RemoteKey()
@@ -412,7 +420,7 @@ func (c *Channel) expireSessions(now time.Time) {
 }
 
 func (c *Channel) getOrInit(ctx context.Context) (*Session, error) {
-	for {
+	for i := 0; ; i++ {
 		c.mu.Lock()
 		now := time.Now()
 		c.expireSessions(now)
@@ -421,7 +429,12 @@ func (c *Channel) getOrInit(ctx context.Context) (*Session, error) {
 			return s, nil
 		}
 		if s := c.sessions[2].Session; s == nil {
-			c.rekeyTimer.Reset(0)
+			if i == 0 {
+				c.rekeyTimer.Reset(0)
+			} else {
+				// a handshake has just failed: do not retry at full speed.
+				c.rekeyTimer.Reset(c.params.HandshakeBackoff)
+			}
 		}
 		ready := c.ready
 		c.mu.Unlock()
